@@ -1,3 +1,12 @@
+#[cfg(feature = "verif_hooks")]
+use crate::verif_hooks::AtomicBool;
+#[cfg(feature = "verif_hooks")]
+use std::{
+  cell::Cell,
+  rc::Rc,
+  sync::{atomic::Ordering, Arc},
+};
+#[cfg(not(feature = "verif_hooks"))]
 use std::{
   cell::Cell,
   rc::Rc,
